@@ -13,7 +13,31 @@ use serde_json::{json, Value};
 use std::io::{Read, Write};
 
 fn payload(rng: &mut Rng, kind: u64, max: usize) -> (String, Vec<u8>) {
-    match kind % 9 {
+    match kind % 11 {
+        9 => {
+            // segments that alternate between incompressible and highly compressible (an incompressible prefix of 32 KiB or
+            // more first, so that later compressed blocks refer back into stored ones)
+            let mut v = Vec::new();
+            let segs = rng.usize(2, 6);
+            for sidx in 0..segs {
+                let n = rng.usize(33_000, 150_000.min(max.max(40_000)));
+                if sidx % 2 == 0 {
+                    v.extend(rng.bytes(n));
+                } else {
+                    let from = v.len().saturating_sub(20_000);
+                    let pat: Vec<u8> = v[from..from + 64.min(v.len() - from)].to_vec();
+                    while v.len() < from + 20_000 + n {
+                        v.extend_from_slice(&pat);
+                    }
+                }
+            }
+            (format!("alternating incompressible/compressible segments, {} bytes", v.len()), v)
+        }
+        10 => {
+            // incompressible data whose length is an exact multiple of the largest stored deflate block (65535) or of a window
+            let n = *rng.pick(&[65_535usize, 2 * 65_535, 3 * 65_535, 32_768, 65_536, 131_072, 5 * 65_535 + 1, 65_534]);
+            (format!("incompressible {n} bytes (block multiple)"), rng.bytes(n))
+        }
         0 => (String::from("empty"), Vec::new()),
         1 => (String::from("one byte"), vec![rng.next() as u8]),
         2 => {
